@@ -157,3 +157,62 @@ Proof.
     rewrite E1, mdet_opp, (cpow_neg1_odd n Ho). ring. }
   destruct (mdet n A) as [x y]. unfold ceq, copp, c0 in *. simpl in *. destruct E. split; lra.
 Qed.
+
+(* ------------------------------------------------------------------------------------------ *)
+(* the fast determinant used when evaluating cases is the determinant                         *)
+(* ------------------------------------------------------------------------------------------ *)
+Lemma zc_embed_add : forall a b, ceq (zc_embed (zc_add a b)) (cadd (zc_embed a) (zc_embed b)).
+Proof. intros [x y] [z w]. unfold zc_embed, zc_add, cadd, ceq. simpl. rewrite !inject_Z_plus. split; reflexivity. Qed.
+Lemma zc_embed_opp : forall a, ceq (zc_embed (zc_opp a)) (copp (zc_embed a)).
+Proof. intros [x y]. unfold zc_embed, zc_opp, copp, ceq. simpl. rewrite !inject_Z_opp. split; reflexivity. Qed.
+Lemma zc_embed_mul : forall a b, ceq (zc_embed (zc_mul a b)) (cmul (zc_embed a) (zc_embed b)).
+Proof.
+  intros [x y] [z w]. unfold zc_embed, zc_mul, cmul, ceq. simpl.
+  unfold Z.sub. rewrite !inject_Z_plus, !inject_Z_opp, !inject_Z_mult. split; ring.
+Qed.
+
+Lemma zsum_embed : forall n f, ceq (zc_embed (zsum n f)) (csum n (fun j => zc_embed (f j))).
+Proof. induction n as [|n IH]; intro f; simpl; [reflexivity | rewrite zc_embed_add, IH; reflexivity]. Qed.
+
+Lemma zalt_embed : forall j z, ceq (zc_embed (zalt j z)) (alt j (zc_embed z)).
+Proof. intros j z. unfold zalt, alt. destruct (Nat.even j); [reflexivity | apply zc_embed_opp]. Qed.
+
+Lemma zdet_embed : forall n A, ceq (zc_embed (zdet n A)) (mdet n (fun i j => zc_embed (A i j))).
+Proof.
+  induction n as [|n IH]; intro A; [reflexivity|].
+  change (zdet (S n) A) with (zsum (S n) (fun j => zalt j (zc_mul (A O j) (zdet n (zminor A j))))).
+  change (mdet (S n) (fun i j => zc_embed (A i j)))
+    with (csum (S n) (fun j => alt j (cmul (zc_embed (A O j)) (mdet n (fun a b => zc_embed (zminor A j a b)))))).
+  rewrite zsum_embed. apply csum_ext. intros j Hj. rewrite zalt_embed. apply alt_ext.
+  rewrite zc_embed_mul, IH. reflexivity.
+Qed.
+
+Lemma zdet_of_correct : forall n D Zm W,
+  (forall i j, (i < n)%nat -> (j < n)%nat -> ceq (W i j) (cmul (cofQ (1 # D)) (zc_embed (Zm i j)))) ->
+  ceq (zdet_of n D Zm) (mdet n W).
+Proof.
+  intros n D Zm W H. unfold zdet_of. rewrite zdet_embed. rewrite <- mdet_scale. apply mdet_ext.
+  intros i j Hi Hj. unfold mscale. symmetry. apply H; assumption.
+Qed.
+
+Lemma ceqb_true : forall a b, ceqb a b = true -> ceq a b.
+Proof.
+  intros a b H. unfold ceqb in H. apply andb_true_iff in H. destruct H as [H1 H2].
+  apply Qeq_bool_iff in H1. apply Qeq_bool_iff in H2. split; assumption.
+Qed.
+
+Lemma forall2b_spec : forall n m p, forall2b n m p = true ->
+  forall i j, (i < n)%nat -> (j < m)%nat -> p i j = true.
+Proof.
+  intros n m p H i j Hi Hj. unfold forall2b in H. rewrite forallb_forall in H.
+  assert (Hin : In i (seq 0 n)) by (apply in_seq; lia). specialize (H i Hin). rewrite forallb_forall in H.
+  apply H. apply in_seq. lia.
+Qed.
+
+Lemma fast_det_correct : forall n W d, fast_det n W = Some d -> ceq d (mdet n W).
+Proof.
+  intros n W d. unfold fast_det. cbv zeta.
+  destruct (forall2b n n _) eqn:E; [|discriminate]. intro H. inversion H; subst d. rewrite cred_eq.
+  apply zdet_of_correct. intros i j Hi Hj. apply ceqb_true.
+  apply (forall2b_spec n n _ E i j Hi Hj).
+Qed.
